@@ -1,6 +1,6 @@
 (* run/<Cxx>: every recorded run replayed against the model and judged by the monitors. *)
 From Coq Require Import String List Bool Arith ZArith.
-From Verif Require Import Base.ListX Base.Json Base.Free Pub.Events Pub.Replay Pub.Monitors Pub.SideEffect Pub.BaseActor Pub.Util Pub.DeliverySpec.
+From Verif Require Import Base.ListX Base.Json Base.Free Pub.Events Pub.Replay Pub.Monitors Pub.SideEffect Pub.BaseActor Pub.Util Pub.Value Pub.DeliverySpec Pub.CreateSpec.
 Require Import Run.observed.
 Import ListNotations.
 Open Scope string_scope.
@@ -117,6 +117,82 @@ Definition delivery_stats := Eval vm_compute in
    length (filter (fun u => match batches (u_trace u) with [] => false | _ => true end) observed),
    length (filter (fun u => existsb (fun r => Nat.ltb 1 (length r)) (batches (u_trace u))) observed),
    length (filter (fun u => Nat.ltb 2 (length (deref_events (u_trace u)))) observed)).
+(* C05 on a recorded outbox run: the ordering monitor, fresh ids, and the listing after each history *)
+Definition first_new_id (tr : list (ev * ans)) : option string :=
+  match find_ans (fun e => match e with EDb op _ => String.eqb op "NewID" | _ => false end) tr with Some (AIri i) => Some i | _ => None end.
+Definition new_ids (tr : list (ev * ans)) : list string :=
+  flat_map (fun p => match p with (EDb op _, AIri i) => if String.eqb op "NewID" then [i] else [] | _ => [] end) tr.
+(* once a Database call or Lock failed, nothing more is stored, listed, delivered or answered with 201 *)
+Fixpoint continues_after_failure (failed : bool) (tr : list (ev * ans)) : bool :=
+  match tr with
+  | [] => false
+  | (e, x) :: r =>
+      let bad := failed && match e, x with
+                           | EBatchDeliver _ _, _ => true
+                           | EWriteHeader n, _ => Nat.eqb n 201
+                           | EDb op _, AOk => String.eqb op "SetOutbox" || String.eqb op "Create" || String.eqb op "Update" || String.eqb op "Delete"
+                           | _, _ => false end in
+      bad || continues_after_failure (failed || match e, x with EDb _ _, AErr => true | ELock _, AErr => true | _, _ => false end) r
+  end.
+Definition order_verdict (u : run) : nat * string :=
+  if String.eqb (u_entry u) "postoutbox" || String.eqb (u_entry u) "send" then
+    if continues_after_failure false (u_trace u) then (1, "stored, listed, delivered or answered 201 after a persistence step failed") else
+    match first_fail ostate ord_step o0 (u_trace u) 0 with
+    | inr pos => (1, match nth_error (u_trace u) pos with
+                     | Some (EDb _ _, _) => "outbox written twice, not for the stored activity, or not with its id at the front"
+                     | Some (EBatchDeliver _ _, _) => "delivered before the activity was stored and listed"
+                     | Some (ESetHeader _ _, _) => "Location is not the id stored and listed"
+                     | Some (EWriteHeader _, _) => "201 without the activity stored and listed"
+                     | _ => "?" end)
+    | inl s =>
+        if String.eqb (u_entry u) "send" && String.eqb (u_result u) "ok" && negb (Nat.eqb (o_set s) 1) then (1, "Send succeeded without listing the activity") else
+        (* the id stored and listed is the first id the application generated in this run; embedded objects of a Create got the others *)
+        match o_created s, first_new_id (u_trace u) with
+        | Some i, Some j => if Nat.eqb (o_set s) 1 && negb (String.eqb i j) then (1, "the activity listed does not carry the fresh id") else (0, "")
+        | _, _ => (0, "")
+        end
+    end
+  else (0, "").
+(* C05 on a recorded run: wrapping, fresh ids on embedded objects, normalisation and storage of a Social Create *)
+Definition posted_value (u : run) : option json :=
+  if String.eqb (u_entry u) "send" then Some (u_send u)
+  else match r_body (u_req u) with BJson j => match to_type j with Ok v => Some v | _ => None end | BNotJson => None end.
+Definition create_verdict (u : run) : nat * string :=
+  if negb (String.eqb (u_entry u) "postoutbox" || String.eqb (u_entry u) "send") then (0, "") else
+  match find_ans (fun e => match e with EDb op _ => String.eqb op "NewID" | _ => false end) (u_trace u),
+        flat_map (fun p => match p with (EDb op [a], AIri _) => if String.eqb op "NewID" then [a] else [] | _ => [] end) (u_trace u),
+        posted_value u with
+  | Some (AIri aid), before :: _, Some v =>
+      let owner := match find_ans (fun e => match e with EDb op _ => String.eqb op "ActorForOutbox" | _ => false end) (u_trace u) with Some (AIri i) => i | _ => "" end in
+      if negb (is_activity v) && negb (wrapped_ok v before owner) then (1, "bare object not wrapped in a Create by the outbox owner copying its addressing and published") else
+      match after_last_create (u_trace u) None with
+      | Some (a, _) =>
+          if negb (String.eqb (id_str a) aid) then (0, "") (* the run ended before the activity was stored *) else
+          if String.eqb (type_name before) "Create" then
+            if negb (list_eqb (map id_str (objs a)) (firstn (length (objs a)) (tl (new_ids (u_trace u))))) then (1, "an embedded object of the Create did not receive its own fresh id") else
+            if c_social (u_cfg u) && negb (mem "Create" (c_soc_other (u_cfg u))) then
+              if negb (gained before a) then (1, "Create not normalised: recipients / attribution are not the unions over activity and objects") else
+              if negb (normalized a) then (1, "Create not normalised: activity recipients differ from the union of the objects'") else
+              if negb (forallb (fun o => existsb (fun p => match p with (EDb op [x], AOk) => String.eqb op "Create" && String.eqb (id_str x) (id_str o) && negb (String.eqb (id_str x) aid) | _ => false end) (u_trace u)) (objs a))
+              then (1, "an object of the Create was not stored") else (0, "")
+            else (0, "")
+          else (0, "")
+      | None => (0, "")
+      end
+  | _, _, _ => (0, "")
+  end.
+Definition create_bad := Eval vm_compute in
+  filter (fun x => Nat.eqb (fst (snd x)) 1) (map (fun p => (fst p, create_verdict (snd p))) (combine (seq 0 (length observed)) observed)).
+Definition order_bad := Eval vm_compute in
+  filter (fun x => Nat.eqb (fst (snd x)) 1) (map (fun p => (fst p, order_verdict (snd p))) (combine (seq 0 (length observed)) observed)).
+Definition history_bad := Eval vm_compute in
+  filter (fun x => Nat.eqb (fst (snd x)) 1)
+    (map (fun p => match snd p with (init, ids, final) =>
+                     (fst p, if jsons_eqb final (map JStr (rev ids) ++ init) then (0, "") else (1, "the outbox does not list exactly the returned ids, newest first")) end)
+         (combine (seq 0 (length histories)) histories)).
+Definition order_stats := Eval vm_compute in
+  (length (filter (fun u => existsb (fun p => match fst p with EDb op _ => String.eqb op "SetOutbox" | _ => false end) (u_trace u)) observed),
+   length histories, fold_left (fun n h => match h with (_, ids, _) => n + length ids end) histories 0).
 Definition n_observed := Eval vm_compute in length observed.
 Print replay_bad.
 Print lock_bad.
@@ -126,4 +202,8 @@ Print serve_bad.
 Print hidden_bad.
 Print delivery_bad.
 Print delivery_stats.
+Print create_bad.
+Print order_bad.
+Print history_bad.
+Print order_stats.
 Print n_observed.
